@@ -72,15 +72,23 @@ def gen_history_case(rng, what):
         calls[1]["n"] = calls[0]["n"]     # same shape, other content: what a shape-keyed cache would confuse
     if rng.random() < 0.4:
         calls[2] = dict(calls[0])         # the same call again: idempotence
-    return dict(stream="history", what=what, calls=calls, model_seed=rng.randrange(1 << 30))
+    case = dict(stream="history", what=what, calls=calls, model_seed=rng.randrange(1 << 30))
+    if what in METHODS:
+        case["reweight"] = True            # the model is updated after the calls; an explainer created THEN must explain it
+    if what in ("Deletion", "Insertion"):
+        case["baseline"] = rng.choice(["persistent", "persistent", "scalar", None])
+    return case
 
 
 def generate(rng, tier):
     cases = [gen_cache_case(rng, tier) for _ in range(40 if tier == "quick" else 400)]
     reps = 1 if tier == "quick" else 6
     for _ in range(reps):
-        for w in METHODS + METRICS + METRICS:        # metrics twice: their state (stored inputs, masks) is the likeliest to leak
+        for i, w in enumerate(METHODS + METRICS + METRICS):   # metrics twice: their state (stored inputs, masks) is the likeliest to leak
             cases.append(gen_history_case(rng, w))
+            if w in ("Deletion", "Insertion"):
+                # first pass: scalar / default baselines; second pass: a function handing out a persistent array
+                cases[-1]["baseline"] = rng.choice(["scalar", None]) if i < len(METHODS + METRICS) else "persistent"
     return cases
 
 
@@ -179,7 +187,7 @@ def run_cache(case):
 _model_cache = {}
 
 
-def conv_model(seed):
+def conv_model(seed, weights=None):
     import tensorflow as tf
     rs = np.random.RandomState(seed % (1 << 31))
     inp = tf.keras.Input((8, 8, 1))
@@ -187,7 +195,7 @@ def conv_model(seed):
     x = tf.keras.layers.Flatten()(x)
     x = tf.keras.layers.Dense(3, name="logits")(x)
     m = tf.keras.Model(inp, x)
-    m.set_weights([(rs.randint(-2, 3, size=w.shape) / 2.0).astype(np.float32) for w in m.get_weights()])
+    m.set_weights(weights or [(rs.randint(-2, 3, size=w.shape) / 2.0).astype(np.float32) for w in m.get_weights()])
     return m
 
 
@@ -200,7 +208,7 @@ def content_map(inp):
     return above * 2 + cols
 
 
-def make_object(what, model, inputs=None, targets=None):
+def make_object(what, model, inputs=None, targets=None, baseline=None):
     import xplique.attributions as A
     import xplique.metrics as M
     kw = dict(
@@ -213,7 +221,9 @@ def make_object(what, model, inputs=None, targets=None):
     if what in kw:
         return getattr(A, what)(model, batch_size=4, **kw[what])
     if what in ("Deletion", "Insertion"):
-        return getattr(M, what)(model, inputs, targets, batch_size=4, steps=4)
+        if baseline is None:
+            return getattr(M, what)(model, inputs, targets, batch_size=4, steps=4)
+        return getattr(M, what)(model, inputs, targets, batch_size=4, steps=4, baseline_mode=baseline)
     if what == "MuFidelity":
         return M.MuFidelity(model, inputs, targets, batch_size=4, grid_size=4, nb_samples=6)
     return M.AverageStability(model, inputs, targets, batch_size=4, nb_samples=3)
@@ -250,7 +260,17 @@ def run_history(case):
             # a metric object is built on fixed (inputs, targets); the calls vary the explanations / the explainer
             x0, t0, _ = call_data(dict(n=3, data_seed=case["model_seed"]))
             seeded(case["model_seed"])       # draws made by a constructor (AverageStability's noise) belong to the object
-            obj = make_object(what, model, x0, t0)
+            # baseline_mode as a function returning a PRE-COMPUTED array that outlives the calls (the usual way to
+            # use the callable form): every object gets its own copy, the user's copy must stay intact
+            pristine = (x0 * 0.5 + 0.125).astype(np.float32)
+            def bl():
+                if case.get("baseline") == "persistent":
+                    mine = pristine.copy()
+                    keep.append(mine)
+                    return lambda inputs: mine
+                return 0.25 if case.get("baseline") == "scalar" else None
+            keep = []
+            obj = make_object(what, model, x0, t0, bl())
         else:
             seeded(case["model_seed"])
             obj = make_object(what, model)
@@ -260,7 +280,7 @@ def run_history(case):
             for target_list, o in ((results, obj), (fresh, None)):
                 if o is None:
                     seeded(case["model_seed"])
-                    o = make_object(what, model, *( (x0, t0) if is_metric else ()))
+                    o = make_object(what, model, *((x0, t0, bl()) if is_metric else ()))
                 seeded(c["seed"])
                 if not is_metric:
                     out = np.asarray(o.explain(x, t))
@@ -273,6 +293,20 @@ def run_history(case):
                 target_list.append([float(v) for v in np.asarray(out, dtype=np.float64).reshape(-1)])
             untouched = untouched and x.tobytes() == xb and t.tobytes() == tb and e.tobytes() == eb
         weights_same = [w.tobytes() for w in model.get_weights()] == weights_before
+        if is_metric:
+            untouched = untouched and all(k.tobytes() == pristine.tobytes() for k in keep)
+        if case.get("reweight"):
+            # the model is updated in place (one more epoch); an explainer created afterwards explains the NEW weights:
+            # compared with the same method on a never-seen twin model holding those weights
+            w2 = [(w * 0.5 + 0.25).astype(np.float32) for w in model.get_weights()]
+            model.set_weights(w2)
+            twin = conv_model(case["model_seed"], weights=w2)
+            x, t, _ = call_data(case["calls"][0])
+            for target_list, mdl in ((results, model), (fresh, twin)):
+                seeded(case["model_seed"])
+                o = make_object(what, mdl)
+                seeded(case["calls"][0]["seed"])
+                target_list.append([float(v) for v in np.asarray(o.explain(x, t), dtype=np.float64).reshape(-1)])
     finally:
         tf.config.run_functions_eagerly(eager_before)
     return dict(results=results, fresh=fresh, inputs_untouched=untouched, weights_untouched=weights_same)
